@@ -724,7 +724,8 @@ fn s_delay(r: &mut Rng, c: &Cell) -> Result<(), String> {
 
 /// S5: the gain of a low-pass at its cutoff frequency is the same at every device rate and after a change
 fn s_filter(r: &mut Rng, c: &Cell) -> Result<(), String> {
-	let fc = r.f64_in(200.0, 1500.0);
+	// (cutoffs from 70 Hz: a low cutoff is a small fraction of a high device rate)
+	let fc = r.log_in(70.0, 1500.0);
 	let mode = *r.pick(&[FilterMode::LowPass, FilterMode::HighPass, FilterMode::BandPass]);
 	let res = r.f64_in(0.0, 0.6);
 	let fs = 48000u32;
@@ -835,6 +836,50 @@ fn s_compressor(r: &mut Rng, c: &Cell) -> Result<(), String> {
 	Ok(())
 }
 
+
+/// S8: an EQ band sits at its frequency in hertz at every device rate: the gain measured at the corner of a shelf is half the
+/// shelf's gain (in dB), at the centre of a bell it is the bell's gain - also where the frequency is a large fraction of the
+/// device rate, and after a rate change
+fn s_eq(r: &mut Rng, c: &Cell) -> Result<(), String> {
+	use kira::effect::eq_filter::{EqFilterBuilder, EqFilterKind};
+	let kind = *r.pick(&[EqFilterKind::HighShelf, EqFilterKind::LowShelf, EqFilterKind::Bell]);
+	let gain = *r.pick(&[12.0f32, -12.0, 6.0]);
+	let rb = c.r2.unwrap_or(c.r1);
+	let lowest = c.r1.min(rb) as f64;
+	let fc = r.f64_in(500.0, (0.3 * lowest).min(3000.0).max(600.0));
+	let fs = 48000u32;
+	let total = 0.09;
+	let frames: Vec<f32> = (0..(total * fs as f64) as usize + 9600).map(|k| 0.1 * (std::f64::consts::TAU * fc * k as f64 / fs as f64).sin() as f32).collect();
+	let measure = |r1: u32, change: Option<(f64, u32)>, seed: u64| -> Result<f64, String> {
+		let mut rig = Rig::simple(r1, c.ibs);
+		let mut t = rig.mgr.add_sub_track(TrackBuilder::new().with_effect(EqFilterBuilder::new(kind, fc, Decibels(gain), 1.0))).map_err(|_| "t")?;
+		let _h = t.play(sound(fs, frames.clone())).map_err(|_| "play")?;
+		let mut tl = Tl::new(rig, change, seed);
+		tl.run_until(total);
+		let late = match (change, tl.changed_at) {
+			(Some(_), Some(tc)) => tc + 0.02,
+			(Some(_), None) => return Err("planned rate change was never applied".into()),
+			_ => 0.05,
+		};
+		tl.run_until(late + 0.02);
+		let per = 1.0 / fc;
+		let w = (0.015 / per).floor() * per;
+		let v: Vec<f64> = tl.out.iter().filter(|(t, _)| *t >= late && *t < late + w).map(|x| x.1 as f64).collect();
+		let rms = (v.iter().map(|x| x * x).sum::<f64>() / v.len().max(1) as f64).sqrt();
+		Ok(20.0 * (rms / (0.1 / 2f64.sqrt())).log10())
+	};
+	let seed = r.next();
+	let a = measure(c.r1, None, seed)?;
+	let b = measure(c.r1, Some((0.04, rb)), seed)?;
+	let want = if matches!(kind, EqFilterKind::Bell) { gain as f64 } else { gain as f64 / 2.0 };
+	for (name, x) in [("at the first rate", a), ("after the change", b)] {
+		if (x - want).abs() > 0.35 {
+			return Err(format!("{:?} EQ band at {:.1} Hz with {} dB: gain measured at that frequency {} is {:.3} dB, expected {:.2} dB (device {} Hz, then {} Hz, buffer {})", kind, fc, gain, name, x, want, c.r1, rb, c.ibs));
+		}
+	}
+	Ok(())
+}
+
 // ---------------------------------------------------------------- driver
 
 const ADD_CHANGE_KEY: &str = "C16.track_added_before_rate_change_picked_up_after";
@@ -927,7 +972,7 @@ pub fn run(ctx: &mut Ctx) {
 	race_all(ctx);
 	// (B) measurements
 	let n = ctx.t(6_000u64, 2_000_000u64);
-	let mut measured = [0u64; 7];
+	let mut measured = [0u64; 8];
 	for i in 0..n {
 		if !ctx.owns("meas", i) {
 			continue;
@@ -938,7 +983,7 @@ pub fn run(ctx: &mut Ctx) {
 		}
 		let mut r = Rng::for_case(ctx.seed, 1602, i);
 		let c = gen_cell(&mut r);
-		let kind = r.below(9);
+		let kind = r.below(10);
 		ctx.eval();
 		crate::monitors::set_current(ctx, "meas", i, "seconds/hertz measurement", false);
 		let res = super::guarded(|| match kind {
@@ -948,6 +993,7 @@ pub fn run(ctx: &mut Ctx) {
 			3 | 4 | 5 => s_delay(&mut r, &c),
 			6 => s_reverb(&mut r, &c),
 			8 => s_compressor(&mut r, &c),
+			9 => s_eq(&mut r, &c),
 			_ => s_filter(&mut r, &c),
 		});
 		crate::monitors::clear_current();
@@ -958,6 +1004,7 @@ pub fn run(ctx: &mut Ctx) {
 			3..=5 => 3,
 			6 => 5,
 			8 => 6,
+			9 => 7,
 			_ => 4,
 		};
 		match res {
@@ -975,7 +1022,7 @@ pub fn run(ctx: &mut Ctx) {
 			Err(p) => ctx.violation("meas", i, &format!("panic: {}", p.first().map(|p| p.sig()).unwrap_or_default()), J::Null),
 		}
 	}
-	for (k, name) in ["duration_and_pitch", "clock_scheduled_start", "tween_duration", "delay_echo_time", "filter_gain_at_cutoff", "reverb_first_reflection_time", "compressor_attack_time"].iter().enumerate() {
+	for (k, name) in ["duration_and_pitch", "clock_scheduled_start", "tween_duration", "delay_echo_time", "filter_gain_at_cutoff", "reverb_first_reflection_time", "compressor_attack_time", "eq_gain_at_its_frequency"].iter().enumerate() {
 		ctx.count(&format!("measured_{}", name), measured[k]);
 	}
 	ctx.sample(jobj! {"monitor" => "rate-in-force probe + seconds/hertz measurements", "rates" => J::A(RATES.iter().map(|x| J::F(*x as f64)).collect()), "history_alphabet" => J::A(OP_NAMES.iter().map(|x| J::S(x.to_string())).collect())});
